@@ -52,7 +52,7 @@ def _boundary(rng):
 def generate(seed: int, run: int, tier: str) -> dict:
     rng = core.rng_for(seed, PROP, run, "gen")
     n = rng.choice([5, 8, 12, 20, 30, 40]) if tier == "quick" else rng.choice([5, 8, 12, 20, 30, 45, 60])
-    w_create = {"symbol": 6, "indexed": 2, "function": 3, "quantity": 3, "quantity_of": 1, "coordsys": 1, "transform": 1, "rotate": 1, "vecsymbol": 1, "vecfunction": 1,
+    w_create = {"symbol": 6, "indexed": 2, "function": 3, "quantity": 3, "quantity_of": 1, "wrapper": 2, "coordsys": 1, "transform": 1, "rotate": 1, "vecsymbol": 1, "vecfunction": 1,
                 "clone_symbol": 5, "clone_function": 3, "clone_indexed": 2}
     # swarm: drop some kinds entirely, emphasise others
     for k in list(w_create):
@@ -104,6 +104,8 @@ def generate(seed: int, run: int, tier: str) -> dict:
             op.update(value=rng.choice([1, 2, 3, 5, -4, 0.5, 1000]), unit=rng.choice(UNITS), name=rng.choice(name_pool), latex=rng.choice(LATEX), prefix=rng.choice([None, None, "kilo", "milli"]))
         elif kind == "quantity_of":
             op.update(src=rng.randrange(100), name=rng.choice(name_pool), latex=rng.choice(LATEX))
+        elif kind == "wrapper":
+            op.update(src=rng.randrange(100), cls=rng.choice(["Average", "FiniteDifference", "ExactDifferential", "InexactDifferential"]))
         elif kind == "rotate":
             op.update(src=rng.randrange(100), angle=rng.choice([1, 1, 2]), axis=rng.choice([0, 0, 1, 2]))
         elif kind == "coordsys":
@@ -170,7 +172,7 @@ class Model:
         self.recs: list[dict] = []
 
     def add(self, kind, obj, display, latex, dim, assumptions=None, scale=None, src=None, defaulted=False, extra=None):
-        if kind != "coordsys":
+        if kind not in ("coordsys", "wrapper"):
             # display names that legitimately look like generated names (chosen so, or defaulted)
             self.allowed_tokens = getattr(self, "allowed_tokens", set())
             for m in INTERNAL.finditer(str(getattr(obj, "display_name", ""))):
@@ -183,6 +185,8 @@ class Model:
 
 def _internal_name(rec) -> str:
     o = rec["obj"]
+    if rec["kind"] == "wrapper":
+        return f"{o.name}#{id(rec['extra']['factor'])}"  # named after the display form by design
     if rec["kind"] in ("function", "vecfunction"):
         return str(o.name)
     if rec["kind"] == "indexed":
@@ -211,6 +215,13 @@ def _check_record_inner(rec, where: str) -> None:
     o = rec["obj"]
     k = rec["kind"]
     if k == "coordsys":
+        return
+    if k == "wrapper":
+        flagged = rec.get("flagged", ())
+        if o.factor is not rec["extra"]["factor"] and "wrapper:factor" not in flagged:
+            raise Violation(where, "wrapper:factor", f"a {type(o).__name__} wrapper no longer wraps the symbol it was created around (now {o.factor!r}: another wrapper whose argument prints alike took it over)")
+        if o.dimension != rec["dim"] and not _same_dim(o.dimension, rec["dim"]) and "wrapper:dimension" not in flagged:
+            raise Violation(where, "wrapper:dimension", f"a {type(o).__name__} wrapper reads dimension {o.dimension}, its argument has {rec['dim']}")
         return
     disp = rec["display"] if not rec["defaulted"] else rec["extra"]["default_display"](o)
     latex = rec["latex"] if rec["latex"] is not None else disp
@@ -388,7 +399,7 @@ def _final_checks(model: Model) -> list[str]:
     # I5 printing
     allowed = set(getattr(model, "allowed_tokens", ()))  # incl. objects the model has since dropped
     for r in model.recs:
-        if r["kind"] == "coordsys":
+        if r["kind"] in ("coordsys", "wrapper"):
             continue
         d = str(r["obj"].display_name)
         for m in INTERNAL.finditer(d):
@@ -655,6 +666,18 @@ def _apply(op: dict, model: Model, state: dict):  # pylint: disable=too-many-bra
         o = sx.Quantity(expr, display_symbol=name, display_latex=latex)
         dim = {"meter": units.length, "second": units.time, "kilogram": units.mass, "kelvin": units.temperature}[op["unit"]]
         model.add("quantity", o, name, latex if latex else None, dim, None, scale=complex(scale), defaulted=not name, extra={"default_display": lambda o: str(o.name), "value": scale})
+    elif k == "wrapper":
+        from symplyphysics.core.operations import symbolic  # pylint: disable=import-outside-toplevel
+        cands = [r for r in model.recs if r["kind"] == "symbol"]
+        if not cands:
+            return "skipped"
+        src = cands[op["src"] % len(cands)]
+        seen = state.setdefault("wrapped", set())
+        if (op["cls"], id(src["obj"])) in seen:
+            return "skipped"  # a second wrapper of the same argument is (rightly) the same symbol
+        seen.add((op["cls"], id(src["obj"])))
+        o = getattr(symbolic, op["cls"])(src["obj"])
+        model.add("wrapper", o, None, None, src["obj"].dimension, None, src=None, extra={"factor": src["obj"]})
     elif k == "quantity_of":
         qs = [r for r in model.recs if r["kind"] == "quantity"]
         if not qs:
@@ -797,7 +820,7 @@ def child_run(job: dict) -> dict:
         finally:
             global_parameters.evaluate = flag
         events.append([len(job["ops"]), "final", "VIOLATION" if violation else "ok"])
-    displays = sorted(str(r["obj"].display_name) for r in model.recs if r["kind"] != "coordsys" and not r["defaulted"])
+    displays = sorted(str(r["obj"].display_name) for r in model.recs if r["kind"] not in ("coordsys", "wrapper") and not r["defaulted"])
     collisions = len(displays) - len(set(displays))
     f = state["faults"]
     fired = sum(f.values())
